@@ -164,6 +164,18 @@ PROPS = {
         floor={'quick': 1000, 'thorough': 5000},
         timeout={'quick': 3000, 'thorough': 20000},
     ),
+    'C11': dict(
+        runs=[dict(src='c11_header_update.c')],
+        level='fault_enumeration',
+        rule=('case = (container with a header, encoding except ALAC, channels, update mode in {SFC_UPDATE_HEADER_NOW after every call, '
+              'SFC_SET_UPDATE_HEADER_AUTO, sf_write_raw + auto, sf_write_raw + explicit}, write pattern in {1-7 frames, around one block, > staging buffer, mixed}, '
+              'sample type); EVERY call boundary of the run (up to 46) is a crash point: the backing store is copied and parsed by a second handle; parameters, '
+              'frame count in [whole blocks written, frames written] and decoded prefix are compared with the finished file, and the finished file with a run '
+              'without updates. distinct = hash(format, ch, type, mode, pattern, frames written at the crash point)'),
+        assumptions=COMMON_ASSUME + ['crash = loss of the writer process right after the call returned: the virtual-I/O store is exactly what the library handed to the I/O layer',
+                                     'block codecs may report any count between the whole blocks written and the frames written'],
+        floor={'quick': 500, 'thorough': 2000},
+    ),
 }
 
 NOT_APPLICABLE = {}
